@@ -161,13 +161,27 @@ def order_dependent(c, drivers):
         t = c.norm(d.target)
         free = {fr[1] for fr in d.gen if fr[0] == 'for'} - _loops_of(c, t)
         for L in free:
-            exprs = [c.norm(d.value)]
+            # a generation condition `A(L) == E` (E independent of L) pins A to one value in every active
+            # iteration, so iterations that pass it are indistinguishable as far as A is concerned
+            pinned = set()
+            for fr in d.gen:
+                if fr[0] == 'pyif' and fr[2]:
+                    cn = c.norm(fr[1])
+                    if cn[0] == 'cmp' and cn[1] == '==':
+                        terms = [t for t, _ in cn[2][2]] if cn[2][0] == 'lin' else [cn[2]]
+                        dep = [t for t in terms if L in _loops_of(c, t)]
+                        if len(dep) == 1 and L not in _loops_of(c, cn[3]):
+                            pinned.add(dep[0])
+
+            def unpin(e):
+                return ir.subst(e, lambda x: ('const', '<pinned>') if x in pinned else None)
+            exprs = [unpin(c.norm(d.value))]
             for fr in d.dsl:
                 if fr[0] in ('if', 'elif'):
-                    exprs.append(c.norm(fr[1]))
+                    exprs.append(unpin(c.norm(fr[1])))
             for fr in d.gen:
                 if fr[0] == 'pyif':
-                    exprs.append(c.norm(fr[1]))
+                    exprs.append(unpin(c.norm(fr[1])))
             uses = any(L in _loops_of(c, e) for e in exprs)
             excl = any(fr[0] == 'case' and any(L in _loops_of(c, c.norm(p)) for p in fr[2]) for fr in d.dsl)
             if uses and not excl:
